@@ -48,10 +48,11 @@ def handle (j : Json) : Json :=
     (if changed && !d.1.isOk then ["dflt.injected.rejected"] else []) ++
     (if inj && (fromJ d.2).compress != (fromJ m.2).compress then ["dflt.after.differs.by.mode"] else []) ++
     (if getBool j "xcheck" then ["xcheck"] else []) ++
+    (if inj && s.dfltUnderNot then ["dflt.under.not"] else []) ++
     (if m.1.errs.any (fun e => e.field == roErr.field) then ["err.readWriteOnly"] else [])
   jobj [("model", jobj [("dflt", outJson inj v d), ("multi", outJson inj v m), ("failfast", outJson inj v f), ("ffmulti", outJson inj v fm),
                         ("xbad", Json.bool xbad)]),
         ("spec", if inj then jobj [("agree", Json.bool true)] else jobj [("sat", Json.bool sp)]),
-        ("excl", jstrs (if inj && s.dfltUnderNot then ["DefaultUnderNot"] else [])), ("branches", jstrs br)]
+        ("excl", Json.arr #[]), ("branches", jstrs br)]
 
 end KinModel.Drv.C12
